@@ -249,6 +249,12 @@ TEMPLATES = [
     ("'a => bool", "NAME x <--> (!y::?'a. !z::?'a. y = z)", 'extra schematic type variable with the name of a type variable of the constant'),
     ("?'a => bool", "NAME x <--> (!y::?'a. y = x)", 'good: schematic type variable of the constant'),
     ("?'a => bool", "NAME x <--> (!y::'a. !z::'a. y = z)", 'extra type variable with the name of a schematic one of the constant'),
+    ("bool => bool", "NAME x <--> x & y", 'extra free variable'),
+    ("bool", "NAME <--> y", 'extra free variable, no arguments'),
+    ("nat => bool", "NAME (x::nat) <--> (x::bool)", 'extra variable with the name of an argument, at another type'),
+    ("nat => bool", "NAME (x::nat) <--> ?x", 'extra schematic variable with the name of an argument'),
+    ("'a => bool => bool", "NAME (x::'a) y <--> (x::bool) & y", 'extra variable with the name of an argument, at another type'),
+    ("bool => bool", "NAME x <--> x & ?y", 'extra schematic variable'),
     ("bool => bool", "NAME true <--> false", 'constant argument'),
     ("bool => bool => bool", "NAME x x <--> x", 'repeated argument'),
     ("('a => 'a) => 'a => 'a", "NAME f x = f (f x)", 'good polymorphic'),
